@@ -94,14 +94,39 @@ fn layout(cases: &str, outp: &str) {
 }
 
 /// Decode one untrusted input the way C14 states it. Returns the verdict.
+/// Two kinds of input: a byte slice (its remaining length is known to the codec) and a streaming reader
+/// (`remaining_len() == None`, as for a file or socket); the worse verdict is reported.
 fn judge(b: &[u8]) -> Value {
+    let a = judge_with(b, false);
+    if c14_violation(&a, b.len()).is_some() {
+        return a;
+    }
+    let s = judge_with(b, true);
+    if c14_violation(&s, b.len()).is_some() || s["ok"] != a["ok"] || (a["ok"] == true && s["consumed"] != a["consumed"]) {
+        let mut s = s;
+        s["input_kind"] = json!("streaming reader (remaining_len = None)");
+        if c14_violation(&s, b.len()).is_none() {
+            s["panic"] = json!("slice input and streaming input decode differently");
+        }
+        return s;
+    }
+    a
+}
+fn judge_with(b: &[u8], streaming: bool) -> Value {
     let owned = b.to_vec();
     let base = CUR.load(SeqCst);
     PEAK.store(base, SeqCst);
     let r = guarded(move || {
-        let mut inp = &owned[..];
-        let r = PortableRegistry::decode(&mut inp);
-        (r, owned.len() - inp.len())
+        if streaming {
+            let mut rd = scale::IoReader(std::io::Cursor::new(owned));
+            let r = PortableRegistry::decode(&mut rd);
+            let pos = rd.0.position() as usize;
+            (r, pos)
+        } else {
+            let mut inp = &owned[..];
+            let r = PortableRegistry::decode(&mut inp);
+            (r, owned.len() - inp.len())
+        }
     });
     let peak = PEAK.load(SeqCst).saturating_sub(base);
     match r {
